@@ -86,6 +86,10 @@ def plan(tier, seed):
         for c in ({'p': 3, 'q': 0, 'r': 1}, {'p': 4, 'q': 0, 'r': 0}, {'p': 2, 'q': 1, 'r': 1}):
             U.append({'cfg': c, 'per_op': 2, 'sympy': False, 'composite_only': True})
         U.append({'cfg': {'signature': [1, 0, -1]}, 'per_op': 2, 'sympy': False})
+        # algebras built through the alternative constructor (options are forwarded by Algebra.fromname), and a custom basis
+        U.append({'cfg': {'named': '2DPGA'}, 'per_op': 2, 'sympy': False})
+        U.append({'cfg': {'named': '3DPGA'}, 'per_op': 1, 'sympy': False, 'elementary_only': True})
+        U.append({'cfg': gen.random_custom_cfg(rng, 3), 'per_op': 1, 'sympy': False})
         nshards = 16
     else:
         for c in gen.pqr_all(1, 3) + gen.sig_orderings(2, 3)[::3]:
@@ -95,6 +99,11 @@ def plan(tier, seed):
         for c in gen.pqr_all(4, 4):
             U.append({'cfg': c, 'per_op': 24, 'sympy': False, 'elementary_only': True})
             U.append({'cfg': c, 'per_op': 4, 'sympy': False})
+        U.append({'cfg': {'named': '2DPGA'}, 'per_op': 30, 'sympy': False})
+        U.append({'cfg': {'named': '3DPGA'}, 'per_op': 20, 'sympy': False, 'elementary_only': True})
+        U.append({'cfg': {'named': 'STAP'}, 'per_op': 10, 'sympy': False, 'elementary_only': True})
+        for _ in range(10):
+            U.append({'cfg': gen.random_custom_cfg(rng, rng.choice((2, 3, 3))), 'per_op': 10, 'sympy': False})
         nshards = 64
     rng.shuffle(U)
     return [{'units': part} for part in gen.split(U, nshards)]
